@@ -39,7 +39,7 @@ def run(prop: str, tier: str, seed: int) -> int:
     core.assert_families(r.printed, {"C05": {"D", "P", "E", "KW", "Box", "IntBox", "GHold"},
                                      "C07": {"K", "B", "M3", "G3", "SP"},
                                      "C08": {"M3", "G3"},
-                                     "C09": {"K", "M3", "SH", "Group", "User", "KN"}}[prop], sp["module"], rep)
+                                     "C09": {"K", "M3", "SH", "Group", "User", "KN", "Click", "Ev"}}[prop], sp["module"], rep)
     runs = [r.printed]
     if prop == "C05":
         ctor_path, r0 = core.build_ctor_table(wd)
